@@ -17,6 +17,18 @@ HARNESS = os.path.join(VERIF, "harness")
 EVID = os.path.join(VERIF, "evidence")
 REPLAYS = os.path.join(VERIF, "replays")
 KNOWN = os.path.join(VERIF, "known_findings.json")
+GEN = os.path.join(WORK, "gen")
+
+
+def gen_optable():
+    """The operation table of /repo's asm.yml as a TLA+ module (read with an independent reader)."""
+    os.makedirs(GEN, exist_ok=True)
+    import optable
+    out = os.path.join(GEN, "OpTableGen.tla")
+    tmp = out + f".{os.getpid()}"
+    with open(tmp, "w") as f:
+        f.write(optable.tla("OpTableGen", "GenTable", optable.ops_of()))
+    os.replace(tmp, out)
 
 TLC_JAR = "/opt/veriftools/tla/tla2tools.jar:/opt/veriftools/tla/CommunityModules-deps.jar"
 
@@ -128,7 +140,7 @@ def tlc_mc(name, tla, cfg, workers=8, timeout=1800, coverage=False, xmx="8g", en
     args = list(extra)
     if coverage:
         args += ["-coverage", "1"]
-    cmd = tlc_cmd(tla, cfg, workers, meta, args, jvm=(f"-Xmx{xmx}", "-Xss512m", f"-DTLA-Library={SPEC}"))
+    cmd = tlc_cmd(tla, cfg, workers, meta, args, jvm=(f"-Xmx{xmx}", "-Xss512m", f"-DTLA-Library={SPEC}:{GEN}"))
     t0 = time.time()
     rc, out = sh(cmd, timeout=timeout, cwd=d, env=env)
     shutil.rmtree(meta, ignore_errors=True)
@@ -164,7 +176,7 @@ def tlc_trace(name, tla, cfg, trace_file, timeout=1800, xmx="6g"):
     """Validate one NDJSON trace file against spec/trace/<tla>."""
     d = os.path.join(SPEC, "trace")
     meta = os.path.join(WORK, "tlc_" + name)
-    cmd = tlc_cmd(tla, cfg, 1, meta, jvm=(f"-Xmx{xmx}", "-Xss1g", f"-DTLA-Library={SPEC}",
+    cmd = tlc_cmd(tla, cfg, 1, meta, jvm=(f"-Xmx{xmx}", "-Xss1g", f"-DTLA-Library={SPEC}:{GEN}",
                                            "-Dtlc2.tool.queue.IStateQueue=StateDeque"))
     t0 = time.time()
     rc, out = sh(cmd, timeout=timeout, cwd=d, env={"TRACE": trace_file})
@@ -181,7 +193,8 @@ def tlc_trace(name, tla, cfg, trace_file, timeout=1800, xmx="6g"):
         ls = re.findall(r"^/\\ l = (\d+)", out, re.M)
         r["invariant_line"] = int(ls[-1]) - 1 if ls else None
     accepted = r["ok"] and r["rejected_line"] is None and not r["invariant"]
-    if not accepted and r["rejected_line"] is None and not r["invariant"]:
+    r["drift"] = "TableDidNotDrift" in out and "is false" in out
+    if not accepted and r["rejected_line"] is None and not r["invariant"] and not r["drift"]:
         sys.stderr.write(out[-3000:])
         raise ToolError(f"TLC failed on {trace_file} (rc={rc})")
     r["accepted"] = accepted
@@ -217,6 +230,7 @@ class Ctx:
         os.makedirs(REPLAYS, exist_ok=True)
         self.known = load_known()
         self._nrep = 0
+        gen_optable()
 
     @property
     def thorough(self):
@@ -257,7 +271,10 @@ class Ctx:
             entry["never_taken"] = sorted(k for k, v in r["coverage"].items() if v == 0)
         self.cov["mc"].append(entry)
         if expect_ok and not r["ok"]:
-            if r["invariant"]:
+            if "TableDidNotDrift" in r["out"] and "is false" in r["out"]:
+                self.violation("the operation table of asm.yml differs from the pinned table (spec/OpTablePinned.tla)",
+                               {"kind": "table_drift", "model": f"{tla}/{cfg}"})
+            elif r["invariant"]:
                 tail = r["out"][-6000:]
                 self.violation(f"TLC: {r['invariant']} violated in {tla}/{cfg} (design-level counterexample)",
                                {"kind": "tlc_counterexample", "model": f"{tla}/{cfg}", "tlc_output_tail": tail})
@@ -280,7 +297,7 @@ class Ctx:
                 name = f"{self.prop}_{abs(hash(path)) % 10**8}_{os.path.basename(path)}_{rnd}"
                 r = tlc_trace(name, tla, cfg, cur)
                 res.append((r, cur, offset))
-                if r["accepted"]:
+                if r["accepted"] or r.get("drift"):
                     break
                 line = r["rejected_line"] if r["rejected_line"] is not None else r.get("invariant_line")
                 if line is None:
@@ -289,11 +306,12 @@ class Ctx:
                     lines = f.readlines()
                 # the run containing `line` (1-based)
                 s = line - 1
-                while s > 0 and f'"e":"{run_start}"' not in lines[s][:40]:
-                    s -= 1
                 e = line
-                while e < len(lines) and f'"e":"{run_start}"' not in lines[e][:40]:
-                    e += 1
+                if run_start is not None:
+                    while s > 0 and f'"e":"{run_start}"' not in lines[s][:40]:
+                        s -= 1
+                    while e < len(lines) and f'"e":"{run_start}"' not in lines[e][:40]:
+                        e += 1
                 r["bad_run"] = lines[s:e]
                 r["bad_line_in_run"] = line - 1 - s
                 rest = lines[e:]
@@ -324,6 +342,11 @@ class Ctx:
                     for tok, ln in r["known"]:
                         self._known_token(tok, ln, cur)
                     if r["accepted"]:
+                        continue
+                    if r.get("drift"):
+                        if not any(v["what"].startswith("the operation table") for v in self.violations):
+                            self.violation("the operation table of asm.yml differs from the pinned table "
+                                           "(spec/OpTablePinned.tla)", {"kind": "table_drift"})
                         continue
                     bad = r.get("bad_run") or []
                     label = None
